@@ -171,7 +171,10 @@ where
 
                 result
             }
-            ConnectionStatus::Disconnected(_) => Poll::Pending,
+            ConnectionStatus::Disconnected(_) => {
+                self.poll_reconnect(cx)?;
+                Poll::Pending
+            }
             ConnectionStatus::Exhausted => Poll::Ready(Err(QuicError::TooManyRetries)?),
         }
     }
